@@ -99,7 +99,8 @@ create_addrxlat_dir(struct attr_dict *dict, enum global_keyidx dirkey)
 	struct attr_data *dir, *attr;
 
 	dir = dgattr(dict, dirkey);
-	dir->flags.isset = 1;
+	for (attr = dir; attr && !attr_isset(attr); attr = attr->parent)
+		attr->flags.isset = 1;
 
 	for (tmpl = options; tmpl < &options[ARRAY_SIZE(options)]; ++tmpl) {
 		attr = new_attr(dict, dir, tmpl);
